@@ -755,6 +755,18 @@ int main(int argc, char **argv) {
     c = vc::genCircuit(g, o);
     p = vd::genParams(g, k % 2 == 1);
     if (k % 8 == 5) vc::translate(c, g.range(-(1ll << 26), 1ll << 26), g.range(-(1ll << 26), 1ll << 26));  // far from the origin
+    if (k % 4 == 2) {
+      // rows listed in another order than bottom-up / left-to-right (code that relies on an order it only partly
+      // establishes: sorted by y alone, lookup by (y, x)): reversed, shuffled, right-to-left within a y, top-down
+      vh::Rng gr = vh::Rng::forCase(a.seed ^ 0x70a5ull, k);
+      std::vector<Row> rows = c.rows_;
+      int mode = (int)((k / 4) % 4);
+      if (mode == 0) std::reverse(rows.begin(), rows.end());
+      else if (mode == 1) { for (size_t i = rows.size(); i > 1; --i) std::swap(rows[i - 1], rows[gr.range(0, (long long)i - 1)]); }
+      else if (mode == 2) std::stable_sort(rows.begin(), rows.end(), [](const Row &x, const Row &y) { return x.minY < y.minY || (x.minY == y.minY && x.minX > y.minX); });
+      else std::stable_sort(rows.begin(), rows.end(), [](const Row &x, const Row &y) { return x.minY > y.minY || (x.minY == y.minY && x.minX < y.minX); });
+      c.setRows(rows);
+    }
     po = PastOf();
     if (k % 3 == 1) {
       po.has = true;
